@@ -3,6 +3,7 @@ CONSTANTS
   Universe = "clips"
   MaxTotal = 0
   MaxSide = 0
+  Rich = FALSE
   Matcher = "positive"
   ClipAlg = "fixed"
   ExportAt = "next"
